@@ -128,9 +128,9 @@ func jobsFor(ctx *core.Ctx, fam family, idx int, gc genCase) []Job {
 			all = append(all, pairing{s, d})
 		}
 	}
-	n := ctx.Pick(2, 4)
-	if ctx.Thorough() && idx%16 == 0 {
-		n = len(all)
+	n := 2
+	if ctx.Thorough() && idx%32 == 0 {
+		n = 8 // every 32nd case sees a third of the pairings
 	}
 	if n > len(all) {
 		n = len(all)
@@ -144,9 +144,6 @@ func jobsFor(ctx *core.Ctx, fam family, idx int, gc genCase) []Job {
 	base := idx*7 + int(ctx.Seed)*13
 	for k := 0; k < n; k++ {
 		p := all[(base+k*5)%len(all)]
-		if n == len(all) {
-			p = all[k]
-		}
 		variant := atomVariants[(base+k)%len(atomVariants)]
 		conc := func(a string) string {
 			if a == "i:7" {
@@ -223,9 +220,16 @@ type tally struct {
 // judge lets TLC decide on the records, cross-checks with the harness's own
 // opinion and the model's expectations, and reports violations.
 func judge(ctx *core.Ctx, recs []*Record, t *tally) error {
+	if dump := os.Getenv("C11_DUMP"); dump != "" { // development aid
+		if _, err := os.Stat(dump); err != nil {
+			if data, err := core.NDJSON(recs); err == nil {
+				os.WriteFile(dump, data, 0o644)
+			}
+		}
+	}
 	o := judgeOpts
 	o.Timeout = ctx.Dur(10, 40)
-	bad, err := core.JudgeCases(ctx, o, recs, 150, 12)
+	bad, err := core.JudgeCases(ctx, o, recs, ctx.Pick(500, 2000), 14)
 	if err != nil {
 		return err
 	}
@@ -291,7 +295,7 @@ func tableSuspect(g Graph, rec *Record) bool {
 // chain, a free or an undefined object.
 func nontrivial(g Graph, rec *Record) bool {
 	if rec.Outcome != "ok" || len(rec.Views) == 0 {
-		return rec.Outcome == "panic" || rec.Outcome == "error"
+		return rec.Outcome == "panic" || rec.Outcome == "error" || rec.Outcome == "diverges"
 	}
 	c := correspond(g, rec.Views[0], rec.Ext)
 	if len(c.m) >= 2 {
@@ -330,16 +334,20 @@ func run(ctx *core.Ctx) error {
 		for i, gc := range cases {
 			jobs = append(jobs, jobsFor(ctx, fam, i, gc)...)
 		}
-		recs, err := executeAll(jobs)
-		if err != nil {
-			return err
+		var recs []*Record
+		for lo := 0; lo < len(jobs); lo += 40000 { // bounded memory in the thorough tier
+			hi := min(lo+40000, len(jobs))
+			recs, err = executeAll(jobs[lo:hi])
+			if err != nil {
+				return err
+			}
+			ctx.Logf("family %s: %d executions on the real copier done", fam.name, hi)
+			if err := judge(ctx, recs, t); err != nil {
+				return err
+			}
 		}
 		ctx.Ev.AddReplayed(len(jobs))
-		ctx.Logf("family %s: %d executions on the real copier done", fam.name, len(jobs))
 		total += len(jobs)
-		if err := judge(ctx, recs, t); err != nil {
-			return err
-		}
 		if len(recs) > 0 {
 			r := recs[len(recs)/2]
 			ctx.Ev.Sample(map[string]any{"kind": "generated case executed on pdf.Copier and judged by Trace_Copier", "family": fam.name,
